@@ -147,6 +147,11 @@ static int destructure(JanetCompiler *c,
                                    JanetSlot s,
                                    JanetTable *attr),
                        JanetTable *attr) {
+    /* Guard against unbounded recursion on deeply nested patterns */
+    if (c->recursion_guard <= 0) {
+        janetc_cerror(c, "recursed too deeply");
+        return 1;
+    }
     switch (janet_type(left)) {
         default:
             janetc_error(c, janet_formatc("unexpected type in destructuring, got %v", left));
@@ -229,7 +234,10 @@ static int destructure(JanetCompiler *c,
                     JanetSlot k = janetc_cslot(janet_wrap_integer(i));
                     janetc_emit_sss(c, JOP_IN, nextright, right, k, 1);
                 }
-                if (destructure(c, subval, nextright, leaf, attr))
+                c->recursion_guard--;
+                int can_free = destructure(c, subval, nextright, leaf, attr);
+                c->recursion_guard++;
+                if (can_free)
                     janetc_freeslot(c, nextright);
             }
         }
@@ -244,7 +252,10 @@ static int destructure(JanetCompiler *c,
                 JanetSlot nextright = janetc_farslot(c);
                 JanetSlot k = janetc_value(janetc_fopts_default(c), kvs[i].key);
                 janetc_emit_sss(c, JOP_IN, nextright, right, k, 1);
-                if (destructure(c, kvs[i].value, nextright, leaf, attr))
+                c->recursion_guard--;
+                int can_free = destructure(c, kvs[i].value, nextright, leaf, attr);
+                c->recursion_guard++;
+                if (can_free)
                     janetc_freeslot(c, nextright);
             }
         }
@@ -345,6 +356,12 @@ typedef struct SlotHeadPair {
 
 SlotHeadPair *dohead_destructure(JanetCompiler *c, SlotHeadPair *into, JanetFopts opts, Janet lhs, Janet rhs) {
 
+    /* Guard against unbounded recursion on deeply nested patterns */
+    if (c->recursion_guard <= 0) {
+        janetc_cerror(c, "recursed too deeply");
+        return into;
+    }
+
     /* Detect if we can do an optimization to avoid some allocations */
     int can_destructure_lhs = janet_checktype(lhs, JANET_TUPLE)
                               || janet_checktype(lhs, JANET_ARRAY);
@@ -372,7 +389,9 @@ SlotHeadPair *dohead_destructure(JanetCompiler *c, SlotHeadPair *into, JanetFopt
         if (!found_amp) {
             for (int32_t i = 0; i < view_lhs.len; i++) {
                 Janet sub_rhs = view_rhs.len <= i ? janet_wrap_nil() : view_rhs.items[i];
+                c->recursion_guard--;
                 into = dohead_destructure(c, into, subopts, view_lhs.items[i], sub_rhs);
+                c->recursion_guard++;
             }
             return into;
         }
